@@ -11,7 +11,7 @@
    What is NOT proved: the size of the floating-point residual u - (q*v + r) (searched by the driver). *)
 From Coq Require Import List Arith ZArith.
 From OV Require Import Base.Panic Base.Arith gen.Params Inst.QcInst Inst.FloatInst Model.Complex Model.Poly
-  Proofs.Poly Proofs.PolyDiv Legacy.C12Refuted.
+  Proofs.Poly Proofs.PolyDiv Proofs.PolyDivUnique Legacy.C12Refuted.
 Import ListNotations.
 
 (* ---------------------------------------------------------------- every arithmetic: never spins, never panics *)
@@ -137,6 +137,28 @@ Example polydiv_field_nonvacuous :
   ([q 1 1; q 49 1] : list AQ) <> [] /\ last ([q 1 1; q 49 1] : list AQ) zero <> zero /\
   length ([q 1 1; q 2 1; q 1 1] : list AQ) <= POLYDIV_MAX.
 Proof. split; [discriminate|]. split; [discriminate|]. apply Nat.leb_le. vm_compute. reflexivity. Qed.
+
+(* ... and that specification determines q and r (as polynomials): polydiv computes THE Euclidean division *)
+Theorem polydiv_unique : forall (A : Arith), FieldLaws A -> forall u v q r q' r' : list A,
+  v <> [] -> last v zero <> zero ->
+  (forall k, nth k u zero = nth k (padd (pmul q v) r) zero) -> (is_zero r = true \/ length r < length v) ->
+  (forall k, nth k u zero = nth k (padd (pmul q' v) r') zero) -> (is_zero r' = true \/ length r' < length v) ->
+  (forall k, nth k q zero = nth k q' zero) /\ (forall k, nth k r zero = nth k r' zero).
+Proof. intros A FL u v q r q' r' Nv Lv I1 S1 I2 S2. exact (polydiv_unique_lemma FL v Nv Lv u q r q' r' I1 S1 I2 S2). Qed.
+Check polydiv_unique : forall (A : Arith), FieldLaws A -> forall u v q r q' r' : list A,
+  v <> [] -> last v zero <> zero ->
+  (forall k, nth k u zero = nth k (padd (pmul q v) r) zero) -> (is_zero r = true \/ length r < length v) ->
+  (forall k, nth k u zero = nth k (padd (pmul q' v) r') zero) -> (is_zero r' = true \/ length r' < length v) ->
+  (forall k, nth k q zero = nth k q' zero) /\ (forall k, nth k r zero = nth k r' zero).
+Print Assumptions polydiv_unique.
+Example polydiv_unique_nonvacuous :
+  ([q 1 1; q 49 1] : list AQ) <> [] /\ last ([q 1 1; q 49 1] : list AQ) zero <> zero /\
+  (forall k, nth k ([q 1 1; q 50 1; q 49 1] : list AQ) zero = nth k (padd (pmul ([q 1 1; q 1 1] : list AQ) [q 1 1; q 49 1]) [q 0 1]) zero) /\
+  is_zero ([q 0 1] : list AQ) = true.
+Proof.
+  split; [discriminate|]. split; [discriminate|]. split; [|reflexivity].
+  intros k. do 4 (destruct k as [|k]; [apply Qc_eqb_spec; vm_compute; reflexivity|]). now destruct k.
+Qed.
 
 (* the same at Qc, hypothesis discharged *)
 Theorem polydiv_Qc : forall u v : list AQ,
